@@ -81,6 +81,25 @@ func c10SpliceWireRecord(enc []byte, r c10ref.Rec) []byte {
 	return append(append([]byte(nil), enc[:tail]...), c10ref.Encode(out)...)
 }
 
+// c10Int draws an n-byte big-endian integer with the boundary values (zero,
+// one, all ones) well represented.
+func c10Int(t *rapid.T, n int, label string) []byte {
+	out := make([]byte, n)
+	switch rapid.IntRange(0, 7).Draw(t, label+"Kind") {
+	case 0, 1:
+	case 2:
+		out[n-1] = 1
+	case 3:
+		for i := range out {
+			out[i] = 0xff
+		}
+	default:
+		copy(out, c10Bytes(t, n, label))
+	}
+
+	return out
+}
+
 // c10GenFailureMessage draws the bytes of a failure message (code + payload).
 func c10GenFailureMessage(t *rapid.T) ([]byte, []string) {
 	codes := c10FailCodes()
@@ -100,11 +119,11 @@ func c10GenFailureMessage(t *rapid.T) ([]byte, []string) {
 	for _, kind := range c10FailureLayout(code) {
 		switch kind {
 		case "u64":
-			b = append(b, c10Bytes(t, 8, "u64")...)
+			b = append(b, c10Int(t, 8, "u64")...)
 		case "u32":
-			b = append(b, c10Bytes(t, 4, "u32")...)
+			b = append(b, c10Int(t, 4, "u32")...)
 		case "u16":
-			b = append(b, c10Bytes(t, 2, "u16")...)
+			b = append(b, c10Int(t, 2, "u16")...)
 		case "sha":
 			b = append(b, c10Bytes(t, 32, "sha")...)
 		case "bigsize":
@@ -195,19 +214,19 @@ func c10GenFailureMessage(t *rapid.T) ([]byte, []string) {
 }
 
 func c10DecodeFailureMessage(t c10TB, b []byte) (FailureMessage, error) {
-	defer func() {
-		if r := recover(); r != nil {
-			t.Fatalf("DecodeFailureMessage panicked: %v\ninput=%x", r,
-				c10Head(b))
-		}
-	}()
 	var (
-		m   FailureMessage
-		err error
+		m        FailureMessage
+		err      error
+		panicked any
 	)
 	alloc := c10Measure(func() {
+		defer func() { panicked = recover() }()
 		m, err = DecodeFailureMessage(bytes.NewReader(b), 0)
 	})
+	if panicked != nil {
+		t.Fatalf("DecodeFailureMessage panicked: %v\ninput=%x", panicked,
+			c10Head(b))
+	}
 	if alloc > c10AllocCap {
 		t.Fatalf("DecodeFailureMessage of %d bytes allocated %d bytes",
 			len(b), alloc)
@@ -217,18 +236,19 @@ func c10DecodeFailureMessage(t c10TB, b []byte) (FailureMessage, error) {
 }
 
 func c10DecodeFailure(t c10TB, b []byte) (FailureMessage, error) {
-	defer func() {
-		if r := recover(); r != nil {
-			t.Fatalf("DecodeFailure panicked: %v\ninput=%x", r, c10Head(b))
-		}
-	}()
 	var (
-		m   FailureMessage
-		err error
+		m        FailureMessage
+		err      error
+		panicked any
 	)
 	alloc := c10Measure(func() {
+		defer func() { panicked = recover() }()
 		m, err = DecodeFailure(bytes.NewReader(b), 0)
 	})
+	if panicked != nil {
+		t.Fatalf("DecodeFailure panicked: %v\ninput=%x", panicked,
+			c10Head(b))
+	}
 	if alloc > c10AllocCap {
 		t.Fatalf("DecodeFailure of %d bytes allocated %d bytes", len(b),
 			alloc)
